@@ -278,4 +278,30 @@ theorem violations_nil {g : G} (R : Reach g) (he : endState g = true) : (obsOf g
   simp only [Obs.violations, obsOf, c1, c2, c3, cOrd, c4, c5, c6, hdr, c8, c9, ↓reduceIte, List.append_nil,
     beq_self_eq_true]
 
+/-- What an empty `Obs.violations` says, clause by clause. -/
+theorem violations_nil_clauses (o : Obs) (h : o.violations = []) :
+    nodupNat o.handled = true ∧
+    o.handled.all (fun i => o.rets.any (fun r => r.isOkSend && r.id == i)) = true ∧
+    (o.otherExit || o.rets.all (fun r => !r.isOkSend || o.handled.contains r.id)) = true ∧
+    o.rets.all (fun r2 => !r2.isOkSend || r2.seenOk.all (fun m1 => orderedIn m1 r2.id o.handled)) = true ∧
+    o.rets.all (fun r => !(r.isSend && r.late) || r.res == .sendErr) = true ∧
+    (o.word.count == 0) = true ∧
+    (!o.word.closed || o.word.marker) = true ∧
+    o.drainedExits ≤ 1 ∧
+    (!o.word.closed || o.otherExit || (o.drainedExits == 1 && !o.alive)) = true ∧
+    (o.word.closed || o.drainedExits == 0) = true := by
+  simp only [Obs.violations, List.append_eq_nil_iff] at h
+  obtain ⟨⟨⟨⟨⟨⟨⟨⟨⟨h1, h2⟩, h3⟩, h4⟩, h5⟩, h6⟩, h7⟩, h8⟩, h9⟩, h10⟩ := h
+  refine ⟨?_, ?_, ?_, ?_, ?_, ?_, ?_, ?_, ?_, ?_⟩
+  · split at h1 <;> simp_all
+  · split at h2 <;> simp_all
+  · split at h3 <;> simp_all
+  · split at h4 <;> simp_all
+  · split at h5 <;> simp_all
+  · split at h6 <;> simp_all
+  · split at h7 <;> simp_all
+  · split at h8 <;> simp_all
+  · split at h9 <;> simp_all
+  · split at h10 <;> simp_all
+
 end Admission
